@@ -1,6 +1,8 @@
 package main
 
 import (
+	"math"
+	"strconv"
 	"strings"
 	"fmt"
 	"go/types"
@@ -121,6 +123,23 @@ func verifIntrinsic(in *Interp, fn *ssa.Function, args []Value, caller *frame, s
 			return fmtIntStr(x.t, 10), true
 		case Int:
 			return fmt.Sprint(int64(x.v)), true
+		}
+	case "verifFtoa":
+		// the shortest round-trip text of a float64 (strconv.FormatFloat(f, 'g', -1, 64)); the float must be given as
+		// a bit pattern (math.Float64frombits of a solver variable) and be finite on this path
+		switch x := args[0].(type) {
+		case float64:
+			return strconv.FormatFloat(x, 'g', -1, 64), true
+		case SymF:
+			bits, ok := mkFPBits(x.t)
+			if !ok {
+				unsup("verifFtoa of a computed float")
+			}
+			nonFinite := mkEq(mkExtract(bits, 62, 52), mkConst(0x7ff, 11))
+			if in.decide(nonFinite) {
+				unsup("verifFtoa of a float that may be NaN or infinite (assume it finite first)")
+			}
+			return fmtFloatStr(bits), true
 		}
 	case "verifAssume":
 		in.assume(toTerm(args[0], 0))
@@ -325,6 +344,8 @@ func (in *Interp) renderValue(v Value, t types.Type, m Model) string {
 		return fmt.Sprint(sext64(u, x.t.w))
 	case float64:
 		return fmt.Sprint(x)
+	case SymF:
+		return fmt.Sprint(math.Float64frombits(evalTerm(x.t, m)))
 	case nil:
 		return "<nil>"
 	case Iface:
